@@ -90,6 +90,7 @@ func runC02() {
 	if run.Thorough() {
 		nShapes = 6000
 	}
+	nShapes = scaled(nShapes)
 	for n := 0; n < nShapes; n++ {
 		r := rnd.Fork()
 		s := genShape(r)
